@@ -337,6 +337,20 @@ def check_second(case):
     except Exception as ex:
         return [("exception", "%s at JDE %r raised %r" % (nm, j, ex), None)]
     out = []
+    # the aberration / nutation identity at two instants one minute apart, evaluated one right
+    # after the other (a correction remembered from the previous call would be stale)
+    try:
+        for jj in (j, j + 60 * s, j - 30 * s):
+            e = Epoch(jj)
+            g = P.geometric_heliocentric_position(e)
+            a = P.apparent_heliocentric_position(e)
+            nut = nutation_longitude(e)._deg * 3600.0
+            ab = wrap180(a[0]._deg - g[0]._deg) * 3600.0
+            if abs(ab - (-20.4898 / g[2]) - nut) > 1e-6:
+                out.append(("aberration_sequence", "%s apparent - geometric = %r arcsec at JDE %r, expected %r (calls "
+                            "one minute apart)" % (nm, ab, jj, -20.4898 / g[2] + nut), abs(ab - (-20.4898 / g[2]) - nut)))
+    except Exception as ex:
+        out.append(("exception", "%s apparent position raised %r" % (nm, ex), None))
     for idx, name in ((0, "longitude"), (1, "latitude"), (2, "radius")):
         def val(p):
             return p[idx]._deg if idx < 2 else p[idx]
